@@ -10,6 +10,7 @@ import (
 	"net/http"
 	"net/http/httptest"
 	"os"
+	"sort"
 	"strings"
 	"time"
 
@@ -24,6 +25,7 @@ import (
 	"github.com/atlassian/gostatsd/internal/verif/lib/fx"
 	"github.com/atlassian/gostatsd/internal/verif/vrt"
 	"github.com/atlassian/gostatsd/internal/verif/vsched"
+	"github.com/atlassian/gostatsd/internal/verif/vtime"
 	"github.com/atlassian/gostatsd/pb"
 	"github.com/atlassian/gostatsd/pkg/statsd"
 	"github.com/atlassian/gostatsd/pkg/transport"
@@ -36,10 +38,11 @@ type cfg struct {
 	Elapsed     time.Duration
 	ExtraTelem  bool // telemetry batch carries other records around runtimeDone, and one batch without it
 	InitFail    bool // start-up path: server.Run fails
+	SlowSub     bool // with InitFail: per-invocation flushing enabled and the telemetry subscription takes >= 100 ms
 }
 
 func (c cfg) String() string {
-	return fmt.Sprintf("N%d-b%v-f%d-el%v-x%v-init%v", c.Invocations, c.Batches, c.Failures, c.Elapsed, c.ExtraTelem, c.InitFail)
+	return fmt.Sprintf("N%d-b%v-f%d-el%v-x%v-init%v-slowsub%v", c.Invocations, c.Batches, c.Failures, c.Elapsed, c.ExtraTelem, c.InitFail, c.SlowSub)
 }
 
 type run struct {
@@ -58,6 +61,7 @@ type run struct {
 	viol      string
 	violKey   string
 	nextCh    chan string
+	subGate   chan struct{}
 	mock      *clock.Mock
 }
 
@@ -116,6 +120,12 @@ func (a runtimeAPI) RoundTrip(req *http.Request) (*http.Response, error) {
 			return jsonResp(req, 200, `{"eventType":"SHUTDOWN","shutdownReason":"spindown"}`, nil), nil
 		}
 		return jsonResp(req, 200, `{"eventType":"INVOKE","requestId":"`+ev+`"}`, nil), nil
+	case strings.HasSuffix(req.URL.Path, "/telemetry"):
+		r.event("telemetry-subscribe")
+		if r.subGate != nil {
+			vsched.Recv(r.subGate) // the subscription round trip is slow
+		}
+		return jsonResp(req, 200, `"OK"`, nil), nil
 	case strings.HasSuffix(req.URL.Path, "/extension/init/error"):
 		r.initErrs++
 		r.event("init-error-reported")
@@ -156,6 +166,7 @@ func (u upstream) RoundTrip(req *http.Request) (*http.Response, error) {
 	for n := range msg.Counters {
 		names = append(names, n)
 	}
+	sort.Strings(names)
 	r := u.r
 	ok := true
 	if len(names) > 0 && r.failsLeft > 0 && vsched.Choose(2, "upstream") == 1 {
@@ -193,6 +204,26 @@ func body(c cfg, r *run) func(*vsched.Exec) {
 		w := vsched.EnvGet("clock").(clock.Clock)
 		clock.VerifDefault = w
 		backoff.VerifNow = func() time.Time { return w.Now() }
+		if c.InitFail && c.SlowSub {
+			// per-invocation flushing: the manager also subscribes to the telemetry API during start-up. The
+			// listener address cannot be bound in the sandbox, so the telemetry server thread fails too; either
+			// failure must be reported as an init error. The subscription is held while 100 ms pass.
+			r.subGate = make(chan struct{})
+			m := extension.VerifNew("lambda.invalid", runtimeAPI{r}, fx.Quiet(), failingServer{errors.New("bad configuration")}, flush.NewFlushCoordinator(), true)
+			var err error
+			done := false
+			vsched.GoNamed("manager.Run", func() { err = m.Run(ctx); done = true })
+			vsched.Quiesce("subscribing")
+			vtime.Advance(mock, 100*time.Millisecond)
+			vsched.Send(r.subGate, struct{}{})
+			vsched.Quiesce("started")
+			if !done {
+				r.fail("manager-did-not-return", fmt.Sprintf("manager.Run is still running although the server failed during start-up; log %v", r.log))
+			} else if err == nil {
+				r.fail("start-up-error-swallowed", "manager.Run returned nil although the server failed")
+			}
+			return
+		}
 		if c.InitFail {
 			m := extension.VerifNew("lambda.invalid", runtimeAPI{r}, fx.Quiet(), failingServer{errors.New("bad configuration")}, nil, false)
 			var err error
@@ -305,6 +336,7 @@ func configs() []cfg {
 		{Invocations: 1, Batches: []int{1}, Failures: 3, Elapsed: time.Second},
 		{Invocations: 2, Batches: []int{1, 1}, Failures: 1, Elapsed: -1},
 		{InitFail: true},
+		{InitFail: true, SlowSub: true},
 		{Invocations: 3, Batches: []int{1, 2, 1}, Failures: 2, Elapsed: time.Second, ExtraTelem: true},
 		{Invocations: 3, Batches: []int{0, 1, 0}, Failures: 1, Elapsed: -1},
 	}
